@@ -40,7 +40,13 @@ def prove(P, obligations_failed, tier="quick"):
     info["translator"] = tr
     for f in tr.get("fails", []):
         obligations_failed.append(("translation", f))
-    ok, out = build.lake_build(P.targets + ["psv_model"])
+    # the driver first: the correspondence streams must be able to run even when a proof obligation no longer builds
+    okm, outm = build.lake_build(["psv_model"])
+    info["model_ok"] = okm
+    if not okm:
+        errs = [l for l in outm.splitlines() if "error" in l][:8]
+        obligations_failed.append(("lake build psv_model (Generated model no longer compiles)", "\n".join(errs) or outm[-1500:]))
+    ok, out = build.lake_build(P.targets)
     info["lake_ok"] = ok
     if not ok:
         # name the first failing module / error lines
@@ -93,7 +99,7 @@ def cmd_check(prop, tier):
         info = prove(P, obligations_failed, tier)
         ctx = props.Ctx(prop=prop, tier=tier, repo_build=d, harness=harness, model=build.model_exe(),
                         workdir=os.path.join(WORK, "run", prop))
-        if harness and info.get("lake_ok"):
+        if harness and info.get("model_ok"):
             coverage = P.tie(ctx, tie_fail)
         # ---- WITNESS search when a proof obligation or the correspondence broke
         confirmed = [t for t in tie_fail if t[2] is not None]
